@@ -32,7 +32,7 @@ THEOREMS = [
     "C13_avro_guard_branch", "C13_avro_utc_unchanged", "C13_avro_out_of_range_refused",
     "C13_display_setting_irrelevant", "C13_generated_sqlite_columns", "C13_sqlite_created_and_added_column_partial",
     "C13_sqlite_text_column_refuted", "C13_every_route_coerces", "C13_route_without_constructor_refuted",
-    "C13_fieldwise_construction_aware", "C13_replace_tzinfo_none_partial", "C13_replace_tzinfo_none_refuted",
+    "C13_fieldwise_construction_aware", "C13_replace_tzinfo_none", "C13_replace_tzinfo_none_refuted",
 ]
 
 UTC = _pydt.timezone.utc
@@ -445,9 +445,6 @@ def classify(f):
     shorter than one second went through ISO text and came back with the same wall clock and offset 0."""
     def sub(off):
         return off is not None and 0 < abs(off) < 10 ** 6
-    if f["kind"] == "construction" and f.get("form") == "replace_tzinfo_none" and isinstance(f.get("got"), list) \
-            and len(f["got"]) == 8 and f["got"][0] != "EXC" and f["got"][7] is None and f["got"][:7] == f["want"][:7]:
-        return "naive-field-instance-via-replace"
     if f["kind"] in ("coercion", "route", "smoke") and f["spec"]["form"] == "text" and isinstance(f.get("got"), list) \
             and f["got"] and f["got"][0] != "EXC" and len(f["got"]) == 8:
         if sub(f["want"][7]) and f["got"][:7] == f["want"][:7] and f["got"][7] == 0:
